@@ -118,9 +118,12 @@ class ThermoLDROption(GenericOption):
             logger.warning("Time not found, unable to read scantime.")
             return super().readParams(data)
 
-    def sortkey(self, path: Path) -> int:
-        """Sorts files numerically."""
-        return int("".join(filter(str.isdigit, path.stem)) or -1)
+    def sortkey(self, path: Path) -> tuple[str, int]:
+        """Sorts files by sample name, then numerically by the line index."""
+        match = re.match(r"(\w*)_ldr_(\d+)\.csv", path.name, re.IGNORECASE)
+        if match is not None:  # digits in the sample name are not part of the index
+            return match.group(1).lower(), int(match.group(2))
+        return "", int("".join(filter(str.isdigit, path.stem)) or -1)
 
 
 class TofwerkOption(GenericOption):
